@@ -26,8 +26,9 @@ PrepHeader(e) ==     \* the first write is the complete header, nothing else
   /\ l = 1 /\ e.kind = "write" /\ e.size = H.hdrlen /\ e.hdr_same /\ e.data = <<>>
   /\ data' = <<>>
 
-AppendData(e) ==     \* later writes only add bytes at the end; the header is never touched again
-  /\ l > 1 /\ e.hdr_same
+AppendData(e) ==     \* writes only add bytes at the end; the header is never touched again.  (Also the FIRST observed
+                     \* write when a writer puts header and first block on disk together: the header is then complete.)
+  /\ e.hdr_same
   /\ e.size = H.hdrlen + Len(e.data)
   /\ IsPrefixOf(data, e.data)
   /\ IsPrefixOf(e.data, H.final_data)
